@@ -46,7 +46,12 @@ def one(ID):
                 meta = json.load(open(src + '/meta.json'))
             except Exception:
                 meta = {}
-            meta['confirmed'] = dict(demo_unpatched_exit=0, demo_patched_exit=1, tests=res.get('tests', 'as run by the author of the change'), patch_applies_to_repo='clean',
+            prev = {}
+            try:
+                prev = json.load(open(out + '/meta.json')).get('confirmed', {})
+            except Exception:
+                pass
+            meta['confirmed'] = dict(demo_unpatched_exit=0, demo_patched_exit=1, tests=res.get('tests') or prev.get('tests') or 'as run by the author of the change', patch_applies_to_repo='clean',
                                      what_ran='tools/seedeval_wt.py: demo on /repo (unpatched) and on the scratch worktree carrying exactly this patch; test suite in that worktree; ./check with DADI_REPO=<worktree>')
             meta['detected_by'] = dict(exit=c.returncode, proof_obligations=proof[:6], bounded_drivers=bnd[:6])
             json.dump(meta, open(out + '/meta.json', 'w'), indent=1)
